@@ -181,34 +181,36 @@ Theorem remove_no_energy_exact :
 Proof. exact remove_no_energy_spec. Qed.
 
 (* Conformers whose graph differs from the parent (iso = false) are excluded — exactly those — unless
-   connectivity changes are allowed; the selected conformer then has the parent's graph, and is the
-   minimum over the retained conformers. *)
+   connectivity changes are allowed.  In find_lowest_energy_conformer the graph filter runs AFTER the
+   optional high-level stage, so it is the FINAL geometry (iso_final) that is judged: the selected
+   conformer has the parent's graph, and it is the minimum of the final energies (en_h) over the
+   finally retained set — for any low-level energies en_l, high-level energies en_h and oracles. *)
 Theorem diff_graph_excluded_unless_allowed :
-  forall (A : Type) (en : A -> option Qc) (iso : A -> bool) (e_tol n_sigma : Qc)
+  forall (A : Type) (en_l en_h : A -> option Qc) (iso_final : A -> bool) (e_tol n_sigma : Qc)
          (d : A -> A -> Qc) (r_tol : Qc) (l : list A),
-  prune_diff_graph A iso l = Ok (filter iso l) /\
-  (forall c r, select A en iso e_tol n_sigma d r_tol false l = (Selected A c, Ok r) ->
-     iso c = true /\ Forall (fun y => iso y = true) r /\ In c r /\
-     exists e, en c = Some e /\ forall y e', In y r -> en y = Some e' -> (e <= e')%Qc) /\
-  (forall c r, select A en iso e_tol n_sigma d r_tol true l = (Selected A c, r) ->
-     r = prune A en e_tol n_sigma d r_tol true l /\
+  prune_diff_graph A iso_final l = Ok (filter iso_final l) /\
+  (forall c r, select A en_l en_h iso_final e_tol n_sigma d r_tol false l = (Selected A c, Ok r) ->
+     iso_final c = true /\ Forall (fun y => iso_final y = true) r /\ In c r /\
+     exists e, en_h c = Some e /\ forall y e', In y r -> en_h y = Some e' -> (e <= e')%Qc) /\
+  (forall c r, select A en_l en_h iso_final e_tol n_sigma d r_tol true l = (Selected A c, r) ->
+     r = prune A en_l e_tol n_sigma d r_tol true l /\
      exists l3, r = Ok l3 /\ In c l3 /\
-       exists e, en c = Some e /\ forall y e', In y l3 -> en y = Some e' -> (e <= e')%Qc).
+       exists e, en_h c = Some e /\ forall y e', In y l3 -> en_h y = Some e' -> (e <= e')%Qc).
 Proof.
-  intros A en iso e_tol n_sigma d r_tol l. split; [apply prune_diff_graph_spec|]. split.
-  - intros c r. unfold select. destruct (prune A en e_tol n_sigma d r_tol true l) as [l2| |]; cbn [bind].
+  intros A en_l en_h iso e_tol n_sigma d r_tol l. split; [apply prune_diff_graph_spec|]. split.
+  - intros c r. unfold select. destruct (prune A en_l e_tol n_sigma d r_tol true l) as [l2| |]; cbn [bind].
     + rewrite prune_diff_graph_spec. destruct (filter iso l2) as [|x f] eqn:Ef; [discriminate|].
-      destruct (lowest_energy A en (x :: f)) as [c'|] eqn:E; intro H; [|discriminate].
-      injection H as -> <-. destruct (lowest_energy_some A en _ _ E) as [Hin He].
+      destruct (lowest_energy A en_h (x :: f)) as [c'|] eqn:E; intro H; [|discriminate].
+      injection H as -> <-. destruct (lowest_energy_some A en_h _ _ E) as [Hin He].
       assert (Hall : Forall (fun y => iso y = true) (x :: f)).
       { rewrite <- Ef. apply Forall_forall. intros y Hy. apply filter_In in Hy. apply Hy. }
       split; [rewrite Forall_forall in Hall; apply Hall; exact Hin|]. split; [exact Hall|]. split; [exact Hin|exact He].
     + discriminate.
     + discriminate.
-  - intros c r. unfold select. destruct (prune A en e_tol n_sigma d r_tol true l) as [l2| |]; cbn [bind].
+  - intros c r. unfold select. destruct (prune A en_l e_tol n_sigma d r_tol true l) as [l2| |]; cbn [bind].
     + destruct l2 as [|x l2]; [discriminate|].
-      destruct (lowest_energy A en (x :: l2)) as [c'|] eqn:E; intro H; [|discriminate]. injection H as -> <-.
-      split; [reflexivity|]. exists (x :: l2). split; [reflexivity|]. exact (lowest_energy_some A en _ _ E).
+      destruct (lowest_energy A en_h (x :: l2)) as [c'|] eqn:E; intro H; [|discriminate]. injection H as -> <-.
+      split; [reflexivity|]. exists (x :: l2). split; [reflexivity|]. exact (lowest_energy_some A en_h _ _ E).
     + discriminate.
     + discriminate.
 Qed.
